@@ -51,6 +51,7 @@ META = {
 SVC_TEMPLATE = "#!/bin/sh\ncd {{ streamflow_workdir }}\n{{ streamflow_environment }}\n{{streamflow_command}}"
 DEFAULT_TEMPLATE = "#!/bin/sh\n\n{{streamflow_command}}"
 TARGETS = ["local", "shell", "shell", "tpl-default", "tpl-full", "tpl-only"]
+SHELL_MAINTAINED = {"PWD", "OLDPWD", "SHLVL", "_"}  # set by any sh for itself, not by StreamFlow
 MARK = re.compile(r"SF_CMD_END_[0-9a-f-]{36}:\d+\s*$")
 
 ENV_VALUES = [
@@ -296,6 +297,17 @@ def judge(cmd, environment, workdir, sut, ref, tag, reftag):
                 bad.append(("env", f"{k}: passed {v!r}, command saw {d['env'].get(k)!r}"))
         if workdir is not None and d["cwd"] != workdir:
             bad.append(("cwd", f"passed {workdir!r}, command ran in {d['cwd']!r}"))
+        # nothing may be inherited from an earlier command of the sequence: without a workdir the command runs where
+        # the fresh reference runs, and every variable that is not this command's own equals the reference's
+        rd = (reftag or {}).get("dumps") or []
+        if rd and reftag is not tag:
+            if workdir is None and d["cwd"] != rd[0]["cwd"]:
+                bad.append(("cwdleak", f"no workdir passed: fresh process runs in {rd[0]['cwd']!r}, command ran in {d['cwd']!r}"))
+            own = set(environment or {})
+            for k in sorted((set(d["allenv"]) | set(rd[0]["allenv"])) - own - SHELL_MAINTAINED):
+                if d["allenv"].get(k) != rd[0]["allenv"].get(k):
+                    bad.append(("envleak", f"variable {k} not passed to this command: fresh process sees "
+                                           f"{rd[0]['allenv'].get(k)!r}, command saw {d['allenv'].get(k)!r}"))
         if d["argv"] != cmd["args"]:
             bad.append(("argv", f"passed {cmd['args']!r}, command saw {d['argv']!r}"))
     if ref[0] == "ok":
@@ -490,6 +502,8 @@ async def classify(env, sh, case, k, cmd, rec, ref, tag, bad, after_timeout, sta
     target = case["target"]
     kinds = {b[0] for b in bad}
     sut = rec["sut"]
+    if kinds & {"cwdleak", "envleak"}:
+        return [None]  # state inherited from an earlier command: no listed mechanism explains that
     # --- history mechanisms of the persistent shell -----------------------------------------
     if target == "shell" and cmd["timeout"] and ref[0] == "timeout" and sut[0] == "timeout" and kinds == {"once"} \
             and tag["starts"] == 2 and rec["info"]["fallback"] and len(tag["dumps"]) == 2:
